@@ -91,10 +91,10 @@ func init() {
 								}}).MustReach(fn, split)
 								bindCall(hc, h, func() {
 									for _, ret := range returnsOf(h) {
-										if !r.Holds || !isNilConst(ret.Results[hacc.Result]) {
+										if !r.Holds || !isNilConst(retValue(ret, hacc.Result)) {
 											continue
 										}
-										r = (&MustPass{P: P, Match: nonNeg(ret.Results[ex.Index])}).MustReach(h, ret)
+										r = (&MustPass{P: P, Match: nonNeg(retValue(ret, ex.Index))}).MustReach(h, ret)
 									}
 								})
 							}
@@ -563,6 +563,41 @@ func relationShapeRule(P *Program, R *Report) {
 			}
 		})
 		okNeg, okPos := false, false
+		// also: one object set to k unconditionally and negated in place exactly when sign == 1
+		// (`exp := new(big.Int).Set(k); if sign == 1 { exp.Neg(exp) }`)
+		{
+			var sets, negs []*ssa.Call
+			allInstrs(fn, func(i ssa.Instruction) {
+				c, ok := i.(*ssa.Call)
+				if !ok {
+					return
+				}
+				t, has := be.Ret[c]
+				if !has {
+					return
+				}
+				onSign := Pred(-1)
+				for _, a := range controllingConds(c.Block()) {
+					a = normAtom(a)
+					if desc(a.V) == "(arg#1==1)" {
+						onSign = a.Want
+					}
+				}
+				switch {
+				case bigMethod(c) == "Set" && t.String() == "arg#3" && onSign == Pred(-1):
+					sets = append(sets, c)
+				case bigMethod(c) == "Neg" && t.String() == "-arg#3" && onSign == True:
+					negs = append(negs, c)
+				}
+			})
+			for _, sc := range sets {
+				for _, nc := range negs {
+					if siteOf(callArgs(sc)[0]) == siteOf(callArgs(nc)[0]) && sc.Block().Dominates(nc.Block()) {
+						okNeg, okPos = true, true
+					}
+				}
+			}
+		}
 		for _, t := range terms {
 			if t == "Neg->-arg#3 when (arg#1==1) is true" {
 				okNeg = true
@@ -750,7 +785,7 @@ func rescalingRule(P *Program, R *Report, rule string) {
 		var rets []string
 		okB, okF := false, false
 		for _, r := range returnsOf(fn) {
-			if t, ok := be.Use[r][r.Results[2]]; ok {
+			if t, ok := be.Use[r][retValue(r, 2)]; ok {
 				rets = append(rets, t.String())
 			}
 		}
@@ -782,8 +817,8 @@ func contributionsKeptRule(P *Program, R *Report, rule string) {
 		}
 		var roots []ssa.Value
 		for _, r := range returnsOf(fn) {
-			if len(r.Results) > 0 && !isNilConst(r.Results[0]) {
-				roots = append(roots, r.Results[0])
+			if retCount(r) > 0 && !isNilConst(retValue(r, 0)) {
+				roots = append(roots, retValue(r, 0))
 			}
 		}
 		inResult := map[ssa.Value]bool{}
